@@ -163,9 +163,17 @@ def any_int_valued(rng):
 class Widener(object):
     """substitution of values (and titles) for one history"""
 
-    def __init__(self, family, seed, seeds_raw, rename=True):
+    def __init__(self, family, seed, seeds_raw, rename=True, near=False):
         self.rng = random.Random(seed)
         self.family = family
+        # near twin: the value drawn for a position (column t row i, parameter n, ubi / translation element
+        # of grain k, pixel i of array n) of the FIRST seed object is remembered; the second object gets,
+        # at the same position, that value changed in the last bit / in the 6th significant digit / by +-1
+        # (integer typed columns) / in the sign of zero / not at all: every write of o2 over what o1 left
+        # (same group, same length; a text file rewritten in place) is an overwrite with nearly equal
+        # data, and the step laws ask for exactly the NEW values
+        self.near = near
+        self.first = {}
         self.int_integral = self.rng.random() < 0.7      # integer typed columns hold integers (hdf domain)
         self.rename = {}
         if family == "table" and rename:
@@ -186,6 +194,31 @@ class Widener(object):
         self.back = {v: k for k, v in self.rename.items()}
 
     def value(self, where, v, isint):
+        if not self.near or where[0] not in ("col", "par", "ubi", "tr", "px"):
+            return self.draw(where, v, isint)
+        if where not in self.first:
+            self.first[where] = self.draw(where, v, isint)
+            return self.first[where]
+        return self.nudge(where, self.first[where])
+
+    def nudge(self, where, x):
+        rng = self.rng
+        x = float(x)
+        r = rng.random()
+        if x == 0.0:
+            return -x if r < 0.6 else x                               # 0.0 <-> -0.0
+        if where[0] == "col" and MODEL_CLASS[where[1]] == "f0" and x == int(x) and abs(x) < 2.0 ** 52:
+            return x + rng.choice([1.0, -1.0]) if r < 0.8 else x      # integer typed column: +-1
+        if where[0] == "ubi":
+            r = r * 0.8                                               # (a grain is its ubi: always a new one)
+        if r < 0.4:
+            return float(np.nextafter(x, rng.choice([-np.inf, np.inf])))      # the last bit
+        if r < 0.8:
+            y = x * (1.0 + rng.choice([-3e-6, 3e-6, 2e-7]))                   # 6th / 7th significant digit
+            return y if abs(y) <= 1e12 or where[0] == "par" else x
+        return x
+
+    def draw(self, where, v, isint):
         kind = where[0]
         rng = self.rng
         if kind == "col":
@@ -572,6 +605,38 @@ def unrename(obs, back):
     return rename_world(obs, back)
 
 
+def _leaves(x, path, out):
+    if isinstance(x, dict):
+        for k in x:
+            _leaves(x[k], path + (k,), out)
+    elif isinstance(x, tuple) and len(x) == 2 and isinstance(x[1], list):
+        _leaves(x[1], path, out)
+    elif isinstance(x, list) and x and all(isinstance(v, (int, float, Fraction)) and not isinstance(v, bool) for v in x):
+        out[path] = [float(v) for v in x]
+    elif isinstance(x, list):
+        for i, v in enumerate(x):
+            _leaves(v, path + (i,), out)
+
+
+def near_overwrite(a, prev, cur):
+    """vacuity counter of the near twins: the successful write `a` replaced a numeric array of the file by
+    one of the same length that differs from it (bits) but is numpy.allclose to it -> name of the operation"""
+    p = a.get("p")
+    if p not in cur["fs"] or prev["fs"][p].get("k") in (None, "none") or prev["fs"][p].get("k") != cur["fs"][p].get("k"):
+        return None
+    old, new = {}, {}
+    _leaves(prev["fs"][p], (), old)
+    _leaves(cur["fs"][p], (), new)
+    for path, x in new.items():
+        y = old.get(path)
+        if y is None or len(y) != len(x):
+            continue
+        xa, ya = np.array(x), np.array(y)
+        if np.allclose(ya, xa) and not np.array_equal(xa.view(np.int64), ya.view(np.int64)):
+            return a["op"]
+    return None
+
+
 def replay_widened(family, hist, seeds_raw, expA, expF, root, seed):
     out = {"fail": None, "sig": None, "checks": 0, "seed": seed, "step": None, "f32_columns": 0}
     try:
@@ -579,7 +644,9 @@ def replay_widened(family, hist, seeds_raw, expA, expF, root, seed):
         # colfile_from_hdf gives depends on the names: histories with a failing WriteHdf keep the model's titles
         failing = any(hist[i]["op"] == "WriteHdf" and "err" in (expA[i]["res"], expF[i]["res"])
                       for i in range(1, len(hist)))
-        w = Widener(family, seed, seeds_raw, rename=not failing)
+        near = (seed // 3) % 2 == 0          # every second widened history is replayed as a near twin
+        out["near"] = near
+        w = Widener(family, seed, seeds_raw, rename=not failing, near=near)
         raw = seeds_raw
         if w.rename:
             raw = {}
@@ -605,7 +672,7 @@ def replay_widened(family, hist, seeds_raw, expA, expF, root, seed):
                     if w.rng.random() < 0.15:
                         f32.add((o, t))
         out["f32_columns"] = len(f32)
-        r = R.Runner(family, root, raw, variant=seed % 4, vals=vals,
+        r = R.Runner(family, root, raw, variant=seed % 16, vals=vals,
                      coldt=(lambda o, t: np.float32 if (o, t) in f32 else np.float64) if f32 else None,
                      paths=sorted(expA[0]["fs"]))
     except Exception:
@@ -634,6 +701,10 @@ def replay_widened(family, hist, seeds_raw, expA, expF, root, seed):
                 out["step"] = i
                 break
             if i > 0:
+                if near and cur["res"] == "ok":
+                    k = near_overwrite(hist[i], prev, cur)
+                    if k:
+                        out.setdefault("near_overwrites", {})[k] = out.get("near_overwrites", {}).get(k, 0) + 1
                 try:
                     relations(family, hist[i], prev, cur, nchecks)
                 except Fail as e:
